@@ -46,7 +46,7 @@ def functional_oracle(ctx, env, desc, ops, outs, tape, label):
                 exp = ('ok', ('obs', wire.cstate(memo)))
         except Exception as e:  # noqa: BLE001
             exp = ('err', wire.EXN_NAMES.get(wire.exn_code(e), type(e).__name__))
-        if exp != got:
+        if not core.same(exp, got):
             ctx.violation(f'operation {k} ({kind}): stateful interface returned {str(got)[:200]}, functional threading gives {str(exp)[:200]}', case)
             return
     if rng.k != len(tape):
@@ -118,8 +118,8 @@ def seeded_threading(ctx, shipped):
                     exp.append(('err', type(e).__name__))
             ctx.count('seeded threading', name)
             ctx.case(('seeded', name, seed, tuple(ops)), True, None)
-            if got != exp:
-                k = next(i for i, (x, y) in enumerate(zip(got, exp)) if x != y)
+            if not core.same(got, exp):
+                k = next(i for i, (x, y) in enumerate(zip(got, exp)) if not core.same(x, y))
                 ctx.violation(f'{name}, seed {seed}: the stateful trajectory differs from threading states through the functional interface with the same seed at operation {k} ({ops[k]})',
                               {'env': name, 'seed': seed, 'ops': ops, 'first_difference': k, 'stateful': str(got[k])[:300], 'functional': str(exp[k])[:300]})
 
@@ -174,7 +174,7 @@ def run(ctx):
         return
     for (label, desc, ops, debug, outs, log), ans in zip(metas, answers):
         kind, val, mlog = envs.decode_env(desc, ans)
-        if kind != 'ok' or val != outs or impl.norm_log(mlog) != impl.norm_log(log):
+        if kind != 'ok' or not core.same(val, outs) or impl.norm_log(mlog) != impl.norm_log(log):
             first = next((i for i, (a, b) in enumerate(zip(val or [], outs)) if a != b), None) if kind == 'ok' else None
             ctx.disagreement('environment machine: implementation and model differ',
                              {'env': label, 'desc': desc, 'ops': ops, 'debug': debug, 'model_kind': kind, 'first_difference': first,
